@@ -25,6 +25,11 @@ HOSTILE = [
     "(module) @_m { print $0 }",
     "(module) @_m { print \"unterminated }",
     "(module) @_m { print \"x\" ; comment without end",
+    "(module) @_m { } ; é中文",
+    "(module) @_m { node n } ; ééééééééééééééééé",
+    "; 中中中中中中中中中中\n(module) @_m { } ; 中中中",
+    "(module) @_m { print 1 ; €€€€\n}",
+    "(module) @_m { print 1 } ;€",
     "(module) @_m { node n\n attr (n) a = \"\\",
     "(module) @_m {{{{ }",
     ")))) (module) @_m { }",
@@ -194,7 +199,10 @@ def run(tier):
     raw = os.path.join(d, "noisy.ndjson")
     n = 120 if tier == "quick" else 2500
     C.gen_cases(n, C.seed() * 1000 + 50, raw, "noisy")
-    run.add_batch("c05_noisy", raw)
+    run.add_batch("c05_noisy", raw, run_timeout=120)
+    # shaped scoped-variable programs (inheritance chains with unrelated variables on intermediate nodes, computed scopes)
+    import checks.c04 as c04
+    run.add_cases("c05_scoped", c04.shaped_cases(tier, "c05c"), run_timeout=60 if tier == "quick" else 600)
     for case, res, cl in run.classify_all(panic_only=True):
         pass
     # (b) texts
